@@ -437,28 +437,28 @@ theorem mem_cands (all : List (String × BQ)) (n : String) (c : BQ) : c ∈ cand
     exact ⟨(n, c), ⟨h, by simp⟩, rfl⟩
 
 section cache
-variable (all : List (String × BQ)) (pick : String → Nat) (hf : Func all)
+variable (tw : List Nat) (all : List (String × BQ)) (pick : String → Nat) (hf : Func all)
 
 set_option linter.unusedSectionVars false in
 include hf in
 mutual
 /-- if every name tags copies of ONE plan, reading the cache instead of the tagged copy changes nothing -/
-theorem cacheSub_id : ∀ (b : BQ), (∀ p, p ∈ b.aliases → p ∈ all) → cacheSub all pick b = b
+theorem cacheSub_id : ∀ (b : BQ), (∀ p, p ∈ b.aliases → p ∈ all) → cacheSub tw all pick b = b
   | .alias n x, h => by
     simp only [BQ.aliases, List.mem_cons] at h
     have hx : (n, x) ∈ all := h _ (Or.inl rfl)
     simp only [cacheSub]
     split
     · cases hget : (cands all n)[pick n]? with
-      | none => simp
+      | none => simp [trimTo]
       | some c =>
         have hc : (n, c) ∈ all := (mem_cands all n c).mp (List.mem_of_getElem? hget)
-        simp [hf n c x hc hx]
+        simp [hf n c x hc hx, trimTo]
     · rw [cacheSub_id x (fun p hp => h p (Or.inr hp))]
   | .node sk kids, h => by
     simp only [BQ.aliases] at h
     simp only [cacheSub, cacheSubL_id kids h]
-theorem cacheSubL_id : ∀ (bs : List BQ), (∀ p, p ∈ aliasesL bs → p ∈ all) → cacheSubL all pick bs = bs
+theorem cacheSubL_id : ∀ (bs : List BQ), (∀ p, p ∈ aliasesL bs → p ∈ all) → cacheSubL tw all pick bs = bs
   | [], _ => by simp [cacheSubL]
   | b :: bs, h => by
     simp only [aliasesL, List.mem_append] at h
